@@ -361,6 +361,28 @@ class Repo:
                     continue          # a new helper whose body was spliced into its callers
                 yield f
 
+    def module_consts(self, rel):
+        """{name: value expr} of simple module-level assignments NAME = <expr> in module `rel`"""
+        out = {}
+        for n in self.trees[rel].body:
+            if isinstance(n, ast.Assign) and len(n.targets) == 1 and isinstance(n.targets[0], ast.Name):
+                out[n.targets[0].id] = n.value
+            elif isinstance(n, ast.AnnAssign) and isinstance(n.target, ast.Name) and n.value is not None:
+                out[n.target.id] = n.value
+        return out
+
+    def fold(self, finfo, expr):
+        """const_value of expr with names resolved through the module-level constants of finfo's module (ValueError if not closed)"""
+        consts = self.module_consts(finfo.module)
+
+        class T(ast.NodeTransformer):
+            def visit_Name(self, n):
+                if isinstance(n.ctx, ast.Load) and n.id in consts:
+                    return consts[n.id]
+                return n
+        import copy as _c
+        return const_value(T().visit(_c.deepcopy(expr)))
+
     def module_tree(self, suffix):
         c = [r for r in self.trees if r.endswith(suffix)]
         if len(c) != 1:
